@@ -17,7 +17,7 @@ def side(kind, none_p):
     return st.one_of(base, base, base, base, base, base, base, st.tuples(base, st.integers(0, 3)).map(lambda t: t[0][: t[1]] + [None] + t[0][t[1] :]))
 
 
-def op_strategy(kind, none_p=True):
+def op_strategy(kind, none_p=True, only=None):
     n = node_of(kind)
     n_or_none = st.one_of(n, n, n, n, n, n, n, n, st.none()) if none_p else n
     e = eid_ref
@@ -50,32 +50,33 @@ def op_strategy(kind, none_p=True):
         st.tuples(st.just("dod"), st.lists(st.tuples(key, a).map(list), max_size=3), st.none()),
     )
     ops = [
-        (3, st.tuples(st.just("add_node"), n_or_none, a).map(list)),
-        (2, st.tuples(st.just("add_nodes_from"), st.lists(st.one_of(n, st.tuples(n, a).map(list)), max_size=3), a).map(list)),
-        (5, st.tuples(st.just("remove_node"), n, b, b).map(list)),
-        (2, st.tuples(st.just("remove_nodes_from"), st.lists(n, max_size=3), b, b).map(list)),
-        (2, setattr_modes(n).map(lambda t: ["set_node_attributes"] + list(t))),
-        (7, st.tuples(st.just("add_edge"), edge, ct, pairct, st.none(), a).map(list)),
-        (5, st.tuples(st.just("add_edge"), edge, st.sampled_from(["list", "tuple", "set", "frozenset", "iter"]), pairct, e, a).map(list)),
-        (2, bulk(1)),
-        (2, bulk(2)),
-        (2, bulk(3)),
-        (2, bulk(4)),
-        (2, bulk(5)),
-        (2, setattr_modes(e).map(lambda t: ["set_edge_attributes"] + list(t))),
-        (5, st.tuples(st.just("add_node_to_edge"), e_or_none, n_or_none, direction).map(list)),
-        (3, st.tuples(st.just("remove_edge"), e).map(list)),
-        (2, st.tuples(st.just("remove_edges_from"), st.lists(e, max_size=3)).map(list)),
-        (5, st.tuples(st.just("remove_node_from_edge"), e, n, direction, b).map(list)),
-        (1, st.tuples(st.just("set_net_attr"), st.sampled_from(["name", "tag"]), nets.attr_value).map(list)),
-        (0.5, st.tuples(st.just("clear"), b).map(list)),
-        (1, st.tuples(st.just("cleanup"), b, b).map(list)),
-        (0.7, st.tuples(st.just("convert_labels_to_integers"), st.sampled_from(["label", "old"])).map(list)),
-        (0.7, st.just(["copy"])),
+        (3, "add_node", st.tuples(st.just("add_node"), n_or_none, a).map(list)),
+        (2, "add_nodes_from", st.tuples(st.just("add_nodes_from"), st.lists(st.one_of(n, st.tuples(n, a).map(list)), max_size=3), a).map(list)),
+        (5, "remove_node", st.tuples(st.just("remove_node"), n, b, b).map(list)),
+        (2, "remove_nodes_from", st.tuples(st.just("remove_nodes_from"), st.lists(n, max_size=3), b, b).map(list)),
+        (2, "set_node_attributes", setattr_modes(n).map(lambda t: ["set_node_attributes"] + list(t))),
+        (7, "add_edge", st.tuples(st.just("add_edge"), edge, ct, pairct, st.none(), a).map(list)),
+        (5, "add_edge", st.tuples(st.just("add_edge"), edge, st.sampled_from(["list", "tuple", "set", "frozenset", "iter"]), pairct, e, a).map(list)),
+        (2, "add_edges_from", bulk(1)),
+        (2, "add_edges_from", bulk(2)),
+        (2, "add_edges_from", bulk(3)),
+        (2, "add_edges_from", bulk(4)),
+        (2, "add_edges_from", bulk(5)),
+        (2, "set_edge_attributes", setattr_modes(e).map(lambda t: ["set_edge_attributes"] + list(t))),
+        (5, "add_node_to_edge", st.tuples(st.just("add_node_to_edge"), e_or_none, n_or_none, direction).map(list)),
+        (3, "remove_edge", st.tuples(st.just("remove_edge"), e).map(list)),
+        (2, "remove_edges_from", st.tuples(st.just("remove_edges_from"), st.lists(e, max_size=3)).map(list)),
+        (5, "remove_node_from_edge", st.tuples(st.just("remove_node_from_edge"), e, n, direction, b).map(list)),
+        (1, "set_net_attr", st.tuples(st.just("set_net_attr"), st.sampled_from(["name", "tag"]), nets.attr_value).map(list)),
+        (0.5, "clear", st.tuples(st.just("clear"), b).map(list)),
+        (1, "cleanup", st.tuples(st.just("cleanup"), b, b).map(list)),
+        (0.7, "convert_labels_to_integers", st.tuples(st.just("convert_labels_to_integers"), st.sampled_from(["label", "old"])).map(list)),
+        (0.7, "copy", st.just(["copy"])),
     ]
     pool = []
-    for w, s in ops:
-        pool += [s] * max(1, int(round(w * 2)))
+    for w, nm, s in ops:
+        if only is None or nm in only:
+            pool += [s] * max(1, int(round(w * 2)))
     return st.one_of(pool)
 
 
